@@ -263,7 +263,8 @@ def multi_pattern(item):
                 exf = (f | G.D) & ~(G.N | G.A | G.Q | G.O)
                 excluded = lambda x: any(G.globmatch(x if not os.path.isdir(os.path.join(t.root, x)) or x.endswith('/') else x + '/', e, flags=exf) for e in (excl or []))
                 bad = []
-                key = (lambda x: x.lower()) if (flags & G.I) else (lambda x: x)
+                # the case rule in force (C17): CASE wins over IGNORECASE; this harness runs on a case-sensitive platform with FORCEUNIX
+                key = (lambda x: x.lower()) if (flags & G.I and not flags & G.C) else (lambda x: x)
                 want_concat = [x for s in single for x in s if not excluded(x)]
                 if flags & G.Q:
                     if res != want_concat:
